@@ -859,17 +859,17 @@ def cmd_mult(a, b, kind, cell=None):
     return Cmd(line, check, cell=cell, prop='C13')
 
 
-def cmd_par(a, kind, cell=None):
+def cmd_par(a, kind, cell=None, prop='C13'):
     line = 'par %s' % tok(a, kind)
 
     def check(res):
-        out = chk_eq('C13', res.get('even'), a % 2 == 0, 'is_even')
-        out += chk_eq('C13', res.get('odd'), a % 2 == 1, 'is_odd')
-        out += chk_big('C13', res.get('inc'), a + 1, 'inc', kind)
-        out += chk_big('C13', res.get('dec'), PANIC if (kind == 'U' and a == 0) else a - 1, 'dec', kind)
+        out = chk_eq(prop, res.get('even'), a % 2 == 0, 'is_even')
+        out += chk_eq(prop, res.get('odd'), a % 2 == 1, 'is_odd')
+        out += chk_big(prop, res.get('inc'), a + 1, 'inc', kind)
+        out += chk_big(prop, res.get('dec'), PANIC if (kind == 'U' and a == 0) else a - 1, 'dec', kind)
         return out
 
-    return Cmd(line, check, cell=cell, prop='C13')
+    return Cmd(line, check, cell=cell, prop=prop)
 
 
 # ------------------------------------------------------------------------------ sign helpers (C19)
